@@ -1055,7 +1055,35 @@ Example cx_dispatch3 :
   end.
 Proof. vm_compute. repeat split. Qed.
 
+(* the parameter lists of all walks from [n] along [path] *)
+Fixpoint walk_params (fuel : nat) (n : node) (path : bytes) (ps : params) : list params :=
+  match fuel with
+  | O => []
+  | S f =>
+    (match path with [] => if Nat.ltb 0 (nsize n) then [ps] else [] | _ => [] end) ++
+    flat_map (fun ch => match seg_match (nseg ch) path ps with
+                        | Some (p1, ps1) => walk_params f ch p1 ps1
+                        | None => []
+                        end) (nchildren n)
+  end.
+
+Lemma walk_params_complete : forall n path ps r ps', walk n path ps r ps' ->
+  forall fuel, (height n <= fuel)%nat -> In ps' (walk_params fuel n path ps).
+Proof.
+  intros n path ps r ps' W.
+  induction W as [n ps Hs | n ch path ps path1 ps1 r ps' Ich SM W IH]; intros fuel Hf.
+  - destruct fuel as [|f]; [rewrite height_eq in Hf; lia|]. cbn [walk_params].
+    apply in_or_app. left. apply Nat.ltb_lt in Hs. rewrite Hs. now left.
+  - destruct fuel as [|f]; [rewrite height_eq in Hf; lia|]. cbn [walk_params].
+    apply in_or_app. right. apply in_flat_map. exists ch. split; [exact Ich|].
+    rewrite SM. apply IH. pose proof (height_child _ _ Ich). lia.
+Qed.
+
 Local Notation cxT4 := (fold_left tstep cx_hist4 (new_tree (bs "r") [] false)).
+
+(* every walk along the path writes "b" *)
+Example cx_walks4 : walk_params 10 (troot cx_tree4) cx_path [] = [[(bs "b", bs "1"); (bs "k", bs "2/z")]].
+Proof. vm_compute. reflexivity. Qed.
 
 Theorem dispatch_walk_refuted :
   ~ (forall name ic trace hist method path n h ps ok,
@@ -1073,15 +1101,12 @@ Proof.
   assert (P2 : cx_path <> []) by (intro X; vm_compute in X; discriminate X).
   pose proof (H (bs "r") [] false cx_hist4 GET cx_path n h _ true E (or_introl T0) P1 P2) as W.
   clear H E T0 P1 P2.
-  assert (P : cx_path = 47 :: tl cx_path) by (vm_compute; reflexivity). rewrite P in W. clear P.
-  apply walk_cons_inv in W. destruct W as [c1 [p1 [s1 [I1 [M1 W]]]]].
-  vm_compute in I1. destruct I1 as [<-|[]]. vm_compute in M1. injection M1 as <- <-.
-  apply walk_cons_inv in W. destruct W as [c2 [p2 [s2 [I2 [M2 W]]]]].
-  vm_compute in I2. destruct I2 as [<-|[]]. vm_compute in M2. injection M2 as <- <-.
-  apply walk_cons_inv in W. destruct W as [c3 [p3 [s3 [I3 [M3 W]]]]].
-  vm_compute in I3. destruct I3 as [<-|[<-|[]]]; vm_compute in M3; try discriminate M3.
-  injection M3 as <- <-.
-  apply (walk_keeps_keys _ _ _ _ _ W (bs "b")); vm_compute; [discriminate | reflexivity].
+  assert (Hh : (height (troot cxT4) <= 10)%nat) by (apply Nat.leb_le; vm_compute; reflexivity).
+  pose proof (walk_params_complete _ _ _ _ _ W 10%nat Hh) as I. clear W Hh.
+  assert (Q : walk_params 10 (troot cxT4) cx_path [] = [[(bs "b", bs "1"); (bs "k", bs "2/z")]])
+    by (vm_compute; reflexivity).
+  rewrite Q in I. destruct I as [I|[]].
+  apply (f_equal (@length _)) in I. discriminate I.
 Qed.
 
 (* hence the statement of C01_dispatch_text_strong without its two side conditions is false *)
